@@ -81,6 +81,8 @@ func main() {
 		dbt.RunScenarios(dbt.OplogScenarios(), mk, flush)
 	case "index":
 		dbt.RunScenarios(dbt.IndexScenarios(), mk, flush)
+	case "nested":
+		dbt.RunScenarios(dbt.NestedScenarios(), mk, flush)
 	case "reload":
 		// random histories on a file store with reopen points, then the typed-pool fidelity scenario
 		nh, _ := strconv.Atoi(os.Args[4])
@@ -167,6 +169,16 @@ func main() {
 		dbt.TxnFailureScenario(tf)
 		flush(tf)
 		tf.Close()
+		se := mk()
+		se.Hist = 8891
+		dbt.SnapshotExpiry(se)
+		flush(se)
+		se.Close()
+		pw := mk()
+		pw.Hist = 8890
+		dbt.ParkedWriterScenario(pw)
+		flush(pw)
+		pw.Close()
 	case "alias":
 		e := mk()
 		dbt.AliasScenarios(e)
